@@ -135,6 +135,7 @@ private:
   [[nodiscard]] bool VisitAllAndSetCurrent(Cursor iter, const ExpressionType& type);
 
   [[nodiscard]] std::optional<ExpressionType> ChildType(Cursor iter, Index index);
+  [[nodiscard]] std::optional<ExpressionType> ChildTypification(Cursor iter, Index index);
   [[nodiscard]] std::optional<Typification> ChildTypeDebool(Cursor iter, Index index, SemanticEID eid);
   [[nodiscard]] std::optional<Typification> ChildTypeDebool(Cursor iter, Index index, DeboolCallback onError);
 
